@@ -62,6 +62,18 @@ func Setup(env *runner.Env) error {
 			Seeds = append(Seeds, Input{Name: f.Name + "#shrunk", Kind: "file-shrunk", Data: sh})
 		}
 	}
+	for _, f := range cor.Files {
+		for i, v := range sencShapes(mut.ShrinkMdat(f.Data, 64)) {
+			if len(v) <= MaxFileLen {
+				Seeds = append(Seeds, Input{Name: fmt.Sprintf("%s#senc-shape%d", f.Name, i), Kind: "file-shrunk", Data: v})
+			}
+		}
+	}
+	for i, v := range multiTrackEncrypted(cor) {
+		if len(v) <= MaxFileLen {
+			Seeds = append(Seeds, Input{Name: fmt.Sprintf("crafted#multi-track-encrypted%d", i), Kind: "file-shrunk", Data: v})
+		}
+	}
 	for _, b := range cor.Boxes {
 		Seeds = append(Seeds, Input{Name: b.Name, Kind: b.Kind, Type: b.Type, Data: b.Data})
 	}
@@ -411,4 +423,271 @@ func SetLossless(f *mp4.File) {
 	if f.IsFragmented() {
 		f.FragEncMode = mp4.EncModeBoxTree
 	}
+}
+
+// sencShapes rewrites every senc box of a file that also carries a tenc (so
+// that the decoder parses the senc) into the per-sample shapes real content
+// rarely has: sub-sample flag set with zero sub-samples for every sample, and
+// sub-sample flag cleared (IVs only). Sizes are re-derived by the serializer.
+func sencShapes(data []byte) [][]byte {
+	ivSize := -1
+	if es := mut.Parse(data); es != nil {
+		var find func([]*mut.E)
+		find = func(l []*mut.E) {
+			for _, e := range l {
+				if e.Type == "tenc" && len(e.Payload) >= 8 && ivSize < 0 {
+					ivSize = int(e.Payload[7])
+				}
+				find(e.Children)
+			}
+		}
+		find(es)
+	}
+	if ivSize != 0 && ivSize != 8 && ivSize != 16 {
+		return nil
+	}
+	var out [][]byte
+	for _, shape := range []int{0, 1} {
+		es := mut.Parse(data)
+		n := 0
+		var walk func([]*mut.E)
+		walk = func(l []*mut.E) {
+			for _, e := range l {
+				if e.Type == "senc" && len(e.Payload) >= 8 {
+					p := e.Payload
+					flags := p[3]
+					count := int(p[4])<<24 | int(p[5])<<16 | int(p[6])<<8 | int(p[7])
+					pos := 8
+					np := append([]byte(nil), p[:8]...)
+					ok := count < 4096
+					for i := 0; ok && i < count; i++ {
+						if pos+ivSize > len(p) {
+							ok = false
+							break
+						}
+						np = append(np, p[pos:pos+ivSize]...)
+						pos += ivSize
+						if flags&2 != 0 {
+							if pos+2 > len(p) {
+								ok = false
+								break
+							}
+							pos += 2 + 6*(int(p[pos])<<8|int(p[pos+1]))
+						}
+						if shape == 0 {
+							np = append(np, 0, 0) // subsample_count 0
+						}
+					}
+					if ok && pos == len(p) {
+						if shape == 0 {
+							np[3] |= 2
+						} else {
+							np[3] &^= 2
+						}
+						e.Payload = np
+						n++
+					}
+				}
+				walk(e.Children)
+			}
+		}
+		walk(es)
+		if n > 0 {
+			out = append(out, mut.Serialize(es))
+		}
+	}
+	return out
+}
+
+func findE(l []*mut.E, path ...string) *mut.E {
+	for _, e := range l {
+		if e.Type == path[0] {
+			if len(path) == 1 {
+				return e
+			}
+			if r := findE(e.Children, path[1:]...); r != nil {
+				return r
+			}
+		}
+	}
+	return nil
+}
+
+func findDeep(l []*mut.E, t string) *mut.E {
+	for _, e := range l {
+		if e.Type == t {
+			return e
+		}
+		if r := findDeep(e.Children, t); r != nil {
+			return r
+		}
+	}
+	return nil
+}
+
+// encInfo describes an encrypted fragmented file of the corpus and the track
+// its first fragment belongs to.
+type encInfo struct {
+	name   string
+	data   []byte
+	ivSize int
+	track  uint32
+}
+
+func be32(p []byte, off int) uint32 {
+	if len(p) < off+4 {
+		return 0
+	}
+	return uint32(p[off])<<24 | uint32(p[off+1])<<16 | uint32(p[off+2])<<8 | uint32(p[off+3])
+}
+
+func tkhdIDOff(tk *mut.E) int {
+	if len(tk.Payload) > 0 && tk.Payload[0] == 1 {
+		return 4 + 16
+	}
+	return 4 + 8
+}
+
+// trakByID returns the trak (and its trex) of moov with the given track id.
+func trakByID(moov *mut.E, id uint32) (trak, trex *mut.E) {
+	for _, c := range moov.Children {
+		if c.Type == "trak" {
+			if tk := findE(c.Children, "tkhd"); tk != nil && be32(tk.Payload, tkhdIDOff(tk)) == id {
+				trak = c
+			}
+		}
+		if c.Type == "mvex" {
+			for _, x := range c.Children {
+				if x.Type == "trex" && be32(x.Payload, 4) == id {
+					trex = x
+				}
+			}
+		}
+	}
+	return
+}
+
+// multiTrackEncrypted merges pairs of encrypted files whose fragment tracks
+// have different per-sample IV sizes into one file whose fragments carry two
+// trafs: the protection parameters of every traf must then be looked up by
+// that traf's own track id.
+func multiTrackEncrypted(cor *corpus.Corpus) [][]byte {
+	var encs []encInfo
+	for _, f := range cor.Files {
+		d := mut.ShrinkMdat(f.Data, 64)
+		es := mut.Parse(d)
+		if es == nil {
+			continue
+		}
+		moov, traf := findE(es, "moov"), findE(es, "moof", "traf")
+		if moov == nil || traf == nil || findE(traf.Children, "senc") == nil {
+			continue
+		}
+		tfhd := findE(traf.Children, "tfhd")
+		if tfhd == nil {
+			continue
+		}
+		id := be32(tfhd.Payload, 4)
+		trak, trex := trakByID(moov, id)
+		if trak == nil || trex == nil {
+			continue
+		}
+		tenc := findDeep(trak.Children, "tenc")
+		if tenc == nil || len(tenc.Payload) < 8 {
+			continue
+		}
+		encs = append(encs, encInfo{f.Name, d, int(tenc.Payload[7]), id})
+	}
+	setID := func(e *mut.E, off int, id uint32) {
+		if e != nil && len(e.Payload) >= off+4 {
+			e.Payload[off], e.Payload[off+1], e.Payload[off+2], e.Payload[off+3] = byte(id>>24), byte(id>>16), byte(id>>8), byte(id)
+		}
+	}
+	var out [][]byte
+	for _, a := range encs {
+		for _, b := range encs {
+			if a.ivSize == b.ivSize || len(out) >= 6 {
+				continue
+			}
+			ea, eb := mut.Parse(a.data), mut.Parse(b.data)
+			moovA, moovB := findE(ea, "moov"), findE(eb, "moov")
+			// a new track id for b's track, above all ids of a
+			newID := uint32(0)
+			for _, c := range moovA.Children {
+				if c.Type == "trak" {
+					if tk := findE(c.Children, "tkhd"); tk != nil {
+						if id := be32(tk.Payload, tkhdIDOff(tk)); id > newID {
+							newID = id
+						}
+					}
+				}
+			}
+			newID++
+			trakB, trexB := trakByID(moovB, b.track)
+			mvexA := findE(moovA.Children, "mvex")
+			if trakB == nil || trexB == nil || mvexA == nil {
+				continue
+			}
+			tkB := findE(trakB.Children, "tkhd")
+			setID(tkB, tkhdIDOff(tkB), newID)
+			setID(trexB, 4, newID)
+			// moov of a: its traks, then b's trak; mvex gets b's trex
+			var ch []*mut.E
+			lastTrak := -1
+			for i, c := range moovA.Children {
+				if c.Type == "trak" {
+					lastTrak = i
+				}
+			}
+			for i, c := range moovA.Children {
+				ch = append(ch, c)
+				if i == lastTrak {
+					ch = append(ch, trakB)
+				}
+			}
+			moovA.Children = ch
+			mvexA.Children = append(mvexA.Children, trexB)
+			n := 0
+			for _, e := range ea {
+				if e.Type != "moof" || findE(e.Children, "traf") == nil {
+					continue
+				}
+				// a fresh copy of b's traf for this moof, with its saio offset
+				// pointing at its own senc data (relative to the moof start)
+				tb := findE(mut.Parse(b.data), "moof", "traf")
+				setID(findE(tb.Children, "tfhd"), 4, newID)
+				off := 8
+				for _, c := range e.Children {
+					off += c.Size()
+				}
+				off += 8
+				for _, c := range tb.Children {
+					if c.Type == "senc" {
+						break
+					}
+					off += c.Size()
+				}
+				off += 16
+				if saio := findE(tb.Children, "saio"); saio != nil && len(saio.Payload) >= 12 {
+					p := 4
+					if saio.Payload[3]&1 != 0 {
+						p += 8
+					}
+					p += 4 // entry_count
+					if saio.Payload[0] == 0 && len(saio.Payload) >= p+4 {
+						setID(saio, p, uint32(off))
+					} else if len(saio.Payload) >= p+8 {
+						setID(saio, p, 0)
+						setID(saio, p+4, uint32(off))
+					}
+				}
+				e.Children = append(e.Children, tb)
+				n++
+			}
+			if n > 0 {
+				out = append(out, mut.Serialize(ea))
+			}
+		}
+	}
+	return out
 }
